@@ -123,9 +123,13 @@ class Solver(object):
         if use_solving_under_assumption:
             res = self.solve([formula])
         else:
-            self.add_assertion(formula)
-            res = self.solve()
-            self.pending_pop = True
+            try:
+                self.add_assertion(formula)
+                res = self.solve()
+            finally:
+                # Also when asserting or solving fails, the pushed
+                # level must be removed before the next operation
+                self.pending_pop = True
 
         return res
 
